@@ -1,7 +1,9 @@
 ------------------------------- MODULE Install -------------------------------
 (***************************************************************************)
 (* C20: git lfs install / update / uninstall over hook files and the       *)
-(* filter.lfs.* configuration of one scope.                                *)
+(* filter.lfs.* configuration of the scopes a command can name (global:    *)
+(* no flag, --local, --worktree with extensions.worktreeConfig on).  A     *)
+(* command reads and writes the scope it names and nothing else.           *)
 (*                                                                         *)
 (* A hook file is in one of the classes                                    *)
 (*   absent, empty            nothing of the user's to lose                 *)
@@ -18,7 +20,7 @@
 (***************************************************************************)
 EXTENDS Integers, Sequences, FiniteSets, TLC, Json, CSV, IOUtils
 
-CONSTANTS Hooks, Keys, MaxOps, MaxVaried, Emit
+CONSTANTS Hooks, Keys, Scopes, MaxOps, MaxVaried, Emit
 
 HookClasses == {"absent", "empty", "current", "old", "indented", "user", "userlfs", "lfspadtail"}
 UserOwned   == {"user", "userlfs", "lfspadtail"}
@@ -30,10 +32,14 @@ VARIABLES hook, cfg, start, nops, hist
 vars == <<hook, cfg, start, nops, hist>>
 View == <<hook, cfg, start>>
 
-Varied(h, c) == Cardinality({x \in Hooks : h[x] # "absent"}) + Cardinality({k \in Keys : c[k] # "unset"})
-Init == /\ hook \in [Hooks -> HookClasses]
-        /\ cfg \in {f \in [Keys -> {"unset", "cur", "old", "skip", "custom"}] : \A k \in Keys : f[k] \in CfgClasses(k)}
-        /\ Varied(hook, cfg) <= MaxVaried
+\* initial states: at most MaxVaried hooks / keys (of any scope) are in a non-default class
+Slots == {<<"h", x, "-">> : x \in Hooks} \cup {<<"c", s, k>> : s \in Scopes, k \in Keys}
+SlotClasses(sl) == IF sl[1] = "h" THEN HookClasses \ {"absent"} ELSE CfgClasses(sl[3]) \ {"unset"}
+Init == /\ \E V \in {v \in SUBSET Slots : Cardinality(v) <= MaxVaried} :
+           \E val \in [V -> HookClasses \cup {"cur", "skip", "custom"}] :
+             /\ \A sl \in V : val[sl] \in SlotClasses(sl)
+             /\ hook = [x \in Hooks |-> IF <<"h", x, "-">> \in V THEN val[<<"h", x, "-">>] ELSE "absent"]
+             /\ cfg = [s \in Scopes |-> [k \in Keys |-> IF <<"c", s, k>> \in V THEN val[<<"c", s, k>>] ELSE "unset"]]
         /\ start = [hook |-> hook, cfg |-> cfg]
         /\ nops = 0 /\ hist = <<>>
 
@@ -51,22 +57,24 @@ HookAfterInstall(v, force) == IF force THEN "current" ELSE IF v \in UserOwned TH
 \* silently is as good as reporting it (what matters there is that it is never overwritten or deleted)
 HookConflict(h) == \E x \in Hooks : h[x] \in {"user", "userlfs"}
 
-Install(force, skip) ==
-  LET cconf == ~force /\ CfgConflict(cfg, skip)
+Install(sc, force, skip) ==
+  LET cconf == ~force /\ CfgConflict(cfg[sc], skip)
       \* on a configuration conflict the command stops: custom values stay, other keys may or may not have been set
-      cfgAllowed == [k \in Keys |-> IF force THEN {Target(k, skip)}
-                                    ELSE IF cfg[k] = "custom" THEN {"custom"}
-                                    ELSE IF cconf THEN {cfg[k], Target(k, skip)}
-                                    ELSE {Target(k, skip)}]
+      cfgAllowed == [s \in Scopes |-> [k \in Keys |->
+                                    IF s # sc THEN {cfg[s][k]}
+                                    ELSE IF force THEN {Target(k, skip)}
+                                    ELSE IF cfg[s][k] = "custom" THEN {"custom"}
+                                    ELSE IF cconf THEN {cfg[s][k], Target(k, skip)}
+                                    ELSE {Target(k, skip)}]]
       hconf == ~force /\ ~cconf /\ HookConflict(hook)
       \* hooks are visited in order; a user hook stops the visit: later hooks may or may not have been upgraded
       hookAllowed == [x \in Hooks |-> IF cconf THEN {hook[x]}
                                       ELSE IF force THEN {"current"}
                                       ELSE IF hook[x] \in UserOwned THEN {hook[x]}
                                       ELSE IF hconf THEN {hook[x], "current"} ELSE {"current"}]
-  IN /\ cfg' = [k \in Keys |-> IF force \/ (~cconf /\ cfg[k] # "custom") THEN Target(k, skip) ELSE cfg[k]]
+  IN /\ cfg' = [cfg EXCEPT ![sc] = [k \in Keys |-> IF force \/ (~cconf /\ cfg[sc][k] # "custom") THEN Target(k, skip) ELSE cfg[sc][k]]]
      /\ hook' = [x \in Hooks |-> IF cconf THEN hook[x] ELSE HookAfterInstall(hook[x], force)]
-     /\ Log([a |-> "install", force |-> force, skip |-> skip, conflict |-> (cconf \/ hconf),
+     /\ Log([a |-> "install", sc |-> sc, force |-> force, skip |-> skip, conflict |-> (cconf \/ hconf),
              cfgAllowed |-> cfgAllowed, hookAllowed |-> hookAllowed])
 
 Update(force) ==
@@ -76,28 +84,32 @@ Update(force) ==
                                       ELSE IF hconf THEN {hook[x], "current"} ELSE {"current"}]
   IN /\ hook' = [x \in Hooks |-> HookAfterInstall(hook[x], force)]
      /\ UNCHANGED cfg
-     /\ Log([a |-> "update", force |-> force, skip |-> FALSE, conflict |-> hconf,
-             cfgAllowed |-> [k \in Keys |-> {cfg[k]}], hookAllowed |-> hookAllowed])
+     /\ Log([a |-> "update", sc |-> "global", force |-> force, skip |-> FALSE, conflict |-> hconf,
+             cfgAllowed |-> [s \in Scopes |-> [k \in Keys |-> {cfg[s][k]}]], hookAllowed |-> hookAllowed])
 
-Uninstall ==
+Uninstall(sc) ==
   LET \* C20: a custom value is the user's and must survive; generated values go away
-      cfgAllowed == [k \in Keys |-> IF cfg[k] = "custom" THEN {"custom"} ELSE {"unset"}]
+      cfgAllowed == [s \in Scopes |-> [k \in Keys |-> IF s # sc \/ cfg[s][k] = "custom" THEN {cfg[s][k]} ELSE {"unset"}]]
       hookAllowed == [x \in Hooks |-> IF hook[x] \in UserOwned THEN {hook[x]} ELSE {"absent"}]
-  IN /\ cfg' = [k \in Keys |-> IF cfg[k] = "custom" THEN "custom" ELSE "unset"]
+  IN /\ cfg' = [cfg EXCEPT ![sc] = [k \in Keys |-> IF cfg[sc][k] = "custom" THEN "custom" ELSE "unset"]]
      /\ hook' = [x \in Hooks |-> IF hook[x] \in UserOwned THEN hook[x] ELSE "absent"]
-     /\ Log([a |-> "uninstall", force |-> FALSE, skip |-> FALSE, conflict |-> FALSE,
+     /\ Log([a |-> "uninstall", sc |-> sc, force |-> FALSE, skip |-> FALSE, conflict |-> FALSE,
              cfgAllowed |-> cfgAllowed, hookAllowed |-> hookAllowed])
 
-Next == (\E f, s \in BOOLEAN : Install(f, s)) \/ (\E f \in BOOLEAN : Update(f)) \/ Uninstall
+Next == \/ \E sc \in Scopes : (\E f, s \in BOOLEAN : Install(sc, f, s)) \/ Uninstall(sc)
+        \/ \E f \in BOOLEAN : Update(f)
 Spec == Init /\ [][Next]_vars
 
 \* ---- the property on the design ------------------------------------------------
 NoDestroy == [][\A x \in Hooks, k \in Keys :
                   /\ ((hook[x] \in UserOwned /\ ~(\E r \in {hist'[Len(hist')]} : r.force)) => hook'[x] = hook[x])
-                  /\ ((cfg[k] = "custom" /\ ~(\E r \in {hist'[Len(hist')]} : r.force)) => cfg'[k] = "custom")]_vars
+                  /\ \A s \in Scopes : ((cfg[s][k] = "custom" /\ ~(\E r \in {hist'[Len(hist')]} : r.force)) => cfg'[s][k] = "custom")]_vars
+\* a command touches only the scope it names
+ScopeIsolation == [][\A s \in Scopes : s # hist'[Len(hist')].sc => cfg'[s] = cfg[s]]_vars
 \* install twice = install once
 Idempotent == [][(Len(hist) > 0 /\ hist[Len(hist)].a = "install" /\ hist'[Len(hist')].a = "install"
-                  /\ hist[Len(hist)].force = hist'[Len(hist')].force /\ hist[Len(hist)].skip = hist'[Len(hist')].skip)
+                  /\ hist[Len(hist)].force = hist'[Len(hist')].force /\ hist[Len(hist)].skip = hist'[Len(hist')].skip
+                  /\ hist[Len(hist)].sc = hist'[Len(hist')].sc)
                  => (hook' = hook /\ cfg' = cfg)]_vars
 
 EmitEdge == Emit => CSVWrite("%1$s", <<ToJson([hook0 |-> start.hook, cfg0 |-> start.cfg, steps |-> hist'])>>, IOEnv.OUT)
